@@ -30,11 +30,13 @@ def _is_name(s):
 
 
 def words(line):
-    """Tokenise into words.  Returns a list of (text, first_eq, plain) or None if unsafe.
+    """Tokenise into words.  Returns a list of (text, first_eq, plain, tilde) or None if unsafe.
 
     text      the word after quote removal ('&&' operator is returned as text None)
     first_eq  index in *text* of the first unquoted '=' whose prefix was entirely unquoted, or -1
     plain     True if the whole word was written without any quoting (needed for reserved words)
+    tilde     True if an unquoted '~' directly follows the first '=' or a later unquoted ':' -- a
+              tilde-prefix if (and only if) the word is an assignment (XCU 2.6.1)
     """
     out = []
     i = 0
@@ -46,7 +48,7 @@ def words(line):
             continue
         if c == '&':
             if i + 1 < n and line[i + 1] == '&':
-                out.append((None, -1, True))
+                out.append((None, -1, True, False))
                 i += 2
                 continue
             return None
@@ -58,7 +60,8 @@ def words(line):
         plain = True
         prefix_unquoted = True
         start = True
-        after_sep = False        # previous unquoted char was '=' or ':' (tilde-prefix position)
+        after_sep = False        # previous unquoted char was the first '=' or a ':' after it
+        tilde = False
         while i < n:
             c = line[i]
             if c == ' ' or c == '\t':
@@ -88,15 +91,19 @@ def words(line):
                 break
             if c in HARD:
                 return None
-            if c == '~' and (start or after_sep):
+            if c == '~' and start:
                 return None
+            if c == '~' and after_sep:
+                tilde = True
             if c == '=' and first_eq < 0 and prefix_unquoted:
                 first_eq = len(text)
-            after_sep = (c == '=' or c == ':')
+                after_sep = True
+            else:
+                after_sep = (c == ':' and first_eq >= 0)
             text += c
             i += 1
             start = False
-        out.append((text, first_eq, plain))
+        out.append((text, first_eq, plain, tilde))
     return out
 
 
@@ -108,7 +115,8 @@ def parse(line):
     assigns = []
     argv = []
     have_cmd = False
-    for text, first_eq, plain in ws:
+    export = False
+    for text, first_eq, plain, tilde in ws:
         if text is None:                 # &&
             if not have_cmd and not assigns:
                 return None
@@ -116,14 +124,20 @@ def parse(line):
             assigns = []
             argv = []
             have_cmd = False
+            export = False
             continue
         if not have_cmd:
             if first_eq > 0 and _is_name(text[:first_eq]):
+                if tilde:
+                    return None
                 assigns.append((text[:first_eq], text[first_eq + 1:]))
                 continue
             if plain and (text == '!' or text == '{' or text == '}'):
                 return None
             have_cmd = True
+            export = plain and text == 'export'
+        elif export and tilde and first_eq > 0 and _is_name(text[:first_eq]):
+            return None          # arguments of the declaration utility are assignments
         argv.append(text)
     if not have_cmd and not assigns:
         return None if cmds else []
